@@ -55,6 +55,10 @@ impl Checker {
             return self.fail(what, "not-char-boundary", file, s, e);
         }
         if name_like {
+            // documented empty range: a module as a navigation target is the position 0 of its file
+            if what == "definition-focus" && s == 0 && e == 0 {
+                return;
+            }
             if !fi.token_ranges.contains(&(s, e)) {
                 let k = match fi.node_ranges.get(&(s, e)) {
                     Some(kind) => format!("node-{kind}"),
